@@ -33,6 +33,22 @@ class Func:
             if isinstance(x, (ast.For, ast.While)):
                 self.loops[id(x)] = n; self.loop_nodes.append(x); n += 1
         self.nstmts = sum(1 for x in ast.walk(node) if isinstance(x, ast.stmt)) - 1
+        # names bound in the function, in order of first binding (parameters first): the position of a local is stable under renaming
+        order = [a.arg for a in node.args.args]
+        def targets(t):
+            if isinstance(t, ast.Name): yield t.id
+            elif isinstance(t, (ast.Tuple, ast.List)):
+                for e in t.elts: yield from targets(e)
+        for x in _preorder(node):
+            ts = []
+            if isinstance(x, ast.Assign): ts = x.targets
+            elif isinstance(x, (ast.AugAssign, ast.AnnAssign)): ts = [x.target]
+            elif isinstance(x, ast.For): ts = [x.target]
+            elif isinstance(x, ast.With): ts = [i.optional_vars for i in x.items if i.optional_vars is not None]
+            for t in ts:
+                for nm in targets(t):
+                    if nm not in order: order.append(nm)
+        self.local_order = order
 
     @property
     def key(self): return self.module + ':' + self.qualname
